@@ -154,7 +154,7 @@ theorem thisTy_no_self (name : String) (g : Generics) (hn : name ≠ "Self") (hp
 /-! ### R4 — every operand of the `&&` chain of `eq` is parenthesised (a `by` block cannot be read as a statement) -/
 
 theorem eq_conjuncts_parenthesised (k : SrcKind) (fs : List CmpField) (hne : fs ≠ []) :
-    cmpFieldsBody .partialEq k fs = sepBy "&&" (fs.map fun cf => paren (peExpr k cf)) := by
+    cmpFieldsBody .partialEq k fs = sepBy ("&&" : GTok) (fs.map fun cf => paren (peExpr k cf)) := by
   unfold cmpFieldsBody
   cases fs with
   | nil => exact absurd rfl hne
@@ -162,7 +162,7 @@ theorem eq_conjuncts_parenthesised (k : SrcKind) (fs : List CmpField) (hne : fs 
 
 /-! ### R5 — a `match` without arms scrutinises a value, not a reference -/
 
-theorem empty_match_by_value : matchSelf [] = ["match", "*", "self", "{", "}"] := rfl
+theorem empty_match_by_value : (matchSelf []).strs = ["match", "*", "self", "{", "}"] := rfl
 
 /-- … and an enum without variants has no arms, in `clone` and in `fmt` alike -/
 theorem empty_enum_no_arms {α β} (f : α → β) : ([] : List α).map f = [] := rfl
